@@ -207,3 +207,13 @@ def run(ck, prog):
 
 EXPLANATION += (" EVD path: tred2's zero-scale branch reloads the work vector from a row it does not clear (C02's rule; a feature exactly "
                 "uncorrelated with the others, or a constant column in wide data, takes that branch).")
+
+
+# ------------------------------------------------------------------ generic: a configuration field read on one successful path is read on every successful path
+_run_pre_config = run
+
+
+def run(ck, prog):
+    _run_pre_config(ck, prog)
+    from sa import config
+    config.run_rule(ck, prog, set(DIMENSION_FILES))
